@@ -273,6 +273,9 @@ def bookkeeping(ctx, crate, crs, e, tag):
         for i, j, s in bb.assigns():
             fs = [(x.get("of"), x.get("n")) for x in s["p"].get("p", []) if isinstance(x, dict) and "f" in x]
             if fs and fs[-1] in ((M, "len"), (M, "max")) and bb.key not in (MP + "insert", MP + "unset"):
+                import effects
+                if effects._uncalled_inherent(ctx, crate, bb.key, tag):
+                    continue        # new API nothing in the workspace calls: not reachable by the operations C19 quantifies over
                 ctx.ob("len-bookkeeping" + tag, bb.key, "writes:%s" % fs[-1][1], False, "%s:%s" % (bb.file, s["line"]),
                        "len/max written outside insert/unset")
 
